@@ -8,7 +8,7 @@ TECHNIQUE = "runtime monitoring: harness-side item table (window model) asserted
 RULE = ("(1) dedicated one-task workloads: n in 0..7 items, concurrency absent / literal 1..n+1 / expression / <= 0, all "
         "outcome vectors for n <= 3 (sampled beyond), every order of item reports for small n (sampled beyond), eager "
         "and lazy polls, pause(+resume)/cancel at every position; (2) with-items tasks embedded in generated dag/loop "
-        "definitions with retries; non-trivial = n >= 2 and effective concurrency < n; distinct = (definition, inputs, "
+        "definitions with retries; with-items tasks inside loops whose list is replaced between passes; the number of items and the concurrency limit are taken from the definition and the offered context (literal limits 0-3 or an expression, also <= 0), not from what the offer says about them; non-trivial = n >= 2 and effective concurrency < n; distinct = (definition, inputs, "
         "history) digest")
 ASSUMPTIONS = ASSUME_SIM
 
@@ -27,6 +27,10 @@ def jobs(tier, seed):
     js += batches("conduct", scale(tier, 120, 3000), scale(tier, 20, 100), gen="mix", p_loop=0.3, gseed=seed + 1,
                   P=dict(p_items=0.5, p_retry=0.2, xs_max=6), scheds=2, lazy=[0, 60], p_fail=0.12,
                   ctl=dict(req=0.05, max_req=2, reqs=["pausing", "canceling", "paused", "canceled"], crash=0.03), name="embedded")
+    # a with-items task inside a loop whose list is replaced between passes (one in-memory conductor, no restore between)
+    js += batches("conduct", scale(tier, 80, 2000), scale(tier, 20, 100), gen="loop", gseed=seed + 2,
+                  P=dict(p_items=0.3, p_retry=0.1, xs_max=4, p_loop_items_change=1.0, p_loop_join=0.0, p_loop_fork=0.0), scheds=2, lazy=[0, 50],
+                  p_fail=0.05, name="item-list-changes-between-loop-passes")
     return js
 
 
